@@ -168,7 +168,8 @@ def double_configs(thorough: bool):
                     "regs": [{"fmt": f1, "lib": 0}, {"fmt": f2, "lib": 0 if topo == "shared" else 1}],
                     "libs": libs,
                     "names": names_for((f1, f2)),
-                    "nclasses": 3 if thorough else 2,
+                    # independent registries only probe for cross-talk through module globals: 2 classes suffice
+                    "nclasses": 3 if (thorough and topo == "shared") else 2,
                 })
     return out
 
@@ -497,6 +498,11 @@ def _template_task(arg):
 
 
 # ----------------------------------------------------------------------------- driver
+def _dispatch(task):
+    kind, arg = task
+    return _bfs_task(arg) if kind == "bfs" else _unmerged_task(arg)
+
+
 def _identity(cfg, problem):
     """Stable across tiers: topology / formatters / library set-up | violated clause."""
     clause = problem.split(":")[0]
@@ -517,7 +523,29 @@ def run(ctx):
     singles = single_configs(thorough)
     doubles = double_configs(thorough)
     cfgs = singles + doubles
-    results = par.run_tasks(_bfs_task, cfgs)
+    cfg_by_name = {cfg_name(c): c for c in cfgs}
+
+    # unmerged cross-check of the canonicalisation (single-registry configurations, sharded by first op)
+    depth = 5 if thorough else 4
+    tasks = []
+    for cfg in singles:
+        d = depth if len(cfg["names"]) == 3 else depth - 1
+        for first in range(len(ops_for(cfg))):
+            tasks.append((cfg, d, first))
+    # one two-registry shared configuration, shallow
+    for cfg in doubles:
+        if cfg["topo"] == "shared" and cfg["regs"][0]["fmt"] == "default" and cfg["regs"][1]["fmt"] == "shorthand" and cfg["libs"][0]["protect"] == "builtin":
+            for first in range(len(ops_for(cfg))):
+                tasks.append((cfg, 4 if thorough else 3, first))
+
+    # one pool for both searches; the big two-registry BFS tasks go first
+    big_first = sorted(cfgs, key=lambda c: (-len(c["regs"]), c["libs"][0]["protect"] is not None, -c["nclasses"]))
+    pool_tasks = [("bfs", c) for c in big_first] + [("unmerged", t) for t in tasks]
+    out = par.run_tasks(_dispatch, pool_tasks)
+    results = [r for (k, _), r in zip(pool_tasks, out) if k == "bfs"]
+    results.sort(key=lambda r: cfgs.index(r["cfg"]))
+    um = [r for (k, _), r in zip(pool_tasks, out) if k == "unmerged"]
+
     seen_by = {}
     for res in results:
         cfg = res["cfg"]
@@ -534,21 +562,7 @@ def run(ctx):
         for problem, hist in res["failures"]:
             fnd.report(_identity(cfg, problem), f"[{nm}] after {hist}: {problem}", {"part": "seq", "cfg": cfg, "history": hist})
 
-    # unmerged cross-check of the canonicalisation (single-registry configurations, sharded by first op)
-    depth = 5 if thorough else 4
-    tasks = []
-    for cfg in singles:
-        d = depth if len(cfg["names"]) == 3 else depth - 1
-        for first in range(len(ops_for(cfg))):
-            tasks.append((cfg, d, first))
-    # one two-registry shared configuration, shallow
-    for cfg in doubles:
-        if cfg["topo"] == "shared" and cfg["regs"][0]["fmt"] == "default" and cfg["regs"][1]["fmt"] == "shorthand" and cfg["libs"][0]["protect"] == "builtin":
-            for first in range(len(ops_for(cfg))):
-                tasks.append((cfg, 4 if thorough else 3, first))
-    um = par.run_tasks(_unmerged_task, tasks)
     by_cfg = {}
-    cfg_by_name = {cfg_name(c): c for c in cfgs}
     for nm, n_seq, n_tr, failures, canon_states in um:
         d = by_cfg.setdefault(nm, {"seq": 0, "tr": 0, "canon": set()})
         d["seq"] += n_seq
